@@ -190,6 +190,7 @@ def check(run):
             "observed": small.obs_pretty(), "model": model_trace(run, small),
             "python": replay_snippet(small.expr, small.ops)}, found_input=False)
     check_seeded(run)
+    check_entropy_seeded(run)
     check_edges(run)
     check_constant_holders(run)
     check_tuple_patterns(run)
@@ -572,6 +573,8 @@ def seeded_snippet(case, upto=None):
             lines.append("p.reset()")
         elif op[0] == "all":
             lines.append("print(p.all(%d))" % op[1])
+        elif op[0] == "copy":
+            lines.append("q = p.copy(); %sprint('copy:', q.nextn(%d))" % ("q.reset(); " if op[2] else "", op[1]))
         else:
             lines.append(call_line(op))
     return "\n".join(lines)
@@ -846,6 +849,257 @@ def check_seeded(run):
                       "constructed PRef(q) (C04_reset_after_set_pattern no longer speaks about this code)",
             "case": {"expr": to_source(mc.expr), "ops": [list(o) for o in mc.ops]}, "observed": mc.obs_pretty(),
             "model": model_trace(run, mc)}, found_input=False)
+
+
+# ==========================================================================================================
+# Entropy-seeded stratum: `seed()` / `seed(None)` - the documented argument-less form ("seed: A hashable value, or
+# None"): the pattern picks a seed nobody outside knows, remembers it, and reset() must rewind to the sequence that
+# began at that call.  History dimension: argument-less (and explicit) re-seeding ANYWHERE in a history of
+# next / reset / all / copy operations, on every chance class of the live package, on nests of chance patterns (seed() on
+# the parent and / or the children) and under deterministic wrappers.
+# Oracle (property text; needs no knowledge of the seed): an ERA starts at every seed / configuration call.  Within one
+# era every REWOUND RUN - the outputs from a point where nothing has been consumed since construction / reset() / all()
+# (a seed() call at such a point keeps the object rewound: it starts a new sequence, it consumes nothing), the outputs
+# of `p.copy()` taken at such a point or taken anywhere and reset(), the list all() returns - is a prefix of ONE
+# sequence: "reset() makes a pattern produce exactly the sequence that a newly constructed, identically seeded instance
+# produces", and the pattern just seeded, its copy, and the pattern after reset() are all identically seeded.
+# Model: un-nested PArpeggiator RANDOM / PRandomImpulseSequence and PSkip over a modelled child with the draws of every
+# epoch replayed (check_kscript / check_nscript: the epoch a seed() opens is the seed of the model's KSeed - whatever
+# the entropy was, Pat/SeededEntropy.v); theorems Props/C04Entropy.v.
+# ==========================================================================================================
+def ent_seedop(rng, name, nested, how=None):
+    how = how or rng.choice(["()", "()", "()", "(None)", "(s)"])
+    args = [] if how == "()" else ["None"] if how == "(None)" else [str(rng.randint(0, 9999))]
+    return ["callon", name, "seed", args] if nested else ["call", "seed", args]
+
+
+def is_entropy_seed(op):
+    return isinstance(op, list) and op[0] in ("call", "callon") and op_method(op) == "seed" and op_args(op) in ([], ["None"])
+
+
+def entropy_script(rng, names, nested):
+    """set-up + history over next / reset / all / copy with argument-less seed() calls at rewound and at consumed points"""
+    setup = []
+    for n in names:
+        x = rng.random()
+        if x < 0.45:
+            setup.append(ent_seedop(rng, n, nested, rng.choice(["()", "()", "(None)"])))
+        elif x < 0.65:
+            setup.append(ent_seedop(rng, n, nested, "(s)"))
+    rng.shuffle(setup)
+    ops = []
+    for phase in range(rng.choice([1, 1, 2, 2, 3])):
+        if phase > 0 or rng.random() < 0.6 or not any(is_entropy_seed(o) for o in setup):
+            ops += ["next"] * rng.choice([0, 0, 1, 2, 5])
+            if rng.random() < 0.75:
+                if ops or rng.random() < 0.5:
+                    ops.append(["reset"] if rng.random() < 0.8 else ["all", rng.randint(0, 6)])     # seed() on the rewound object
+            who = [rng.choice(names)] + ([rng.choice(names)] if len(names) > 1 and rng.random() < 0.4 else [])
+            force = phase == 0 and not any(is_entropy_seed(o) for o in setup)
+            for i, n in enumerate(who):
+                ops.append(ent_seedop(rng, n, nested, "()" if force and i == 0 else None))
+        if rng.random() < 0.35:
+            ops.append(["copy", rng.randint(3, 9), False])
+        ops += ["next"] * rng.choice([0, 1, 1, 2, 3, 5, 8])
+        if rng.random() < 0.2:
+            ops.append(["copy", rng.randint(3, 9), rng.random() < 0.7])
+        x = rng.random()
+        ops += [["reset"]] if x < 0.55 else [["reset"], ["reset"]] if x < 0.7 else [["all", rng.randint(0, 9)]]
+        ops += ["next"] * rng.randint(3, 10)
+        x = rng.random()
+        if x < 0.3:
+            ops += [["reset"]] + ["next"] * rng.randint(2, 6)
+        elif x < 0.45:
+            ops.append(["copy", rng.randint(3, 9), True])
+        elif x < 0.55:
+            ops += [["all", rng.randint(0, 9)]] + ["next"] * rng.randint(2, 5)
+    return setup, ops
+
+
+def entropy_runs(case, events):
+    """rewound runs of a case: [(era, how obtained, [observations], index of the op that closed it)]"""
+    era, rewound, cur, runs = 0, True, [], []
+    for j, (op, o) in enumerate(zip(case["ops"], events)):
+        if op == "next":
+            if rewound:
+                cur.append(o)
+        elif op[0] == "copy":
+            c = o.get("c") if isinstance(o, dict) else None
+            if c is None:
+                continue
+            if op[2]:
+                runs.append((era, "p.copy() + reset()", c, j))
+            elif rewound:
+                runs.append((era, "p.copy() continuing where p stands", cur + c, j))
+        elif op[0] == "all":
+            ok = isinstance(o, dict) and "y" in o and isinstance(o["y"], dict) and "l" in o["y"]
+            if rewound and ok:
+                cur = cur + [{"y": v} for v in o["y"]["l"]] + (["stop"] if len(o["y"]["l"]) < op[1] else [])
+            if rewound:
+                runs.append((era, "next() calls / all()", cur, j))
+            cur, rewound = [], ok
+        elif op[0] == "reset":
+            if rewound:
+                runs.append((era, "next() calls", cur, j))
+            cur, rewound = [], (o == {"y": None})
+        else:                                                   # seed / configuration call: a new era
+            if rewound and cur:
+                runs.append((era, "next() calls", cur, j))
+            era += 1
+            # a call on the rewound object (nothing consumed) leaves it rewound; the call must have succeeded
+            rewound = rewound and not cur and o == {"y": None}
+            cur = []
+    if rewound:
+        runs.append((era, "next() calls", cur, len(case["ops"])))
+    return runs
+
+
+def entropy_judge(case, out):
+    if out.get("status"):
+        raise CannotJudge("impl-" + out["status"])
+    if out["build"] != {"y": None}:
+        raise CannotJudge("constructor / set-up raised")
+    runs = entropy_runs(case, out["events"])
+    best = {}
+    for era, how, obs, j in runs:
+        if era not in best:
+            best[era] = (how, obs, j)
+            continue
+        rhow, ref, rj = best[era]
+        for i in range(min(len(obs), len(ref))):
+            if canon_obs(obs[i]) != canon_obs(ref[i]):
+                return {"era": era, "index": i, "expected": canon_obs(ref[i]), "observed": canon_obs(obs[i]),
+                        "what": "the same era's earlier rewound run (%s, closed by op %d)" % (rhow, rj), "how": how, "op": j,
+                        "segment_outputs": [pretty_obs(x) for x in obs], "reference_outputs": [pretty_obs(x) for x in ref]}
+        if len(obs) > len(ref):
+            best[era] = (how, obs, j)
+    return None
+
+
+def check_entropy_seeded(run):
+    rng = run.rng
+    thorough = run.tier == "thorough"
+    live = {c["name"] for c in run.impl("c04_impl", {"enumerate": True})["classes"]}
+    per = 40 if thorough else 8
+    plan = [(n, SEEDED_RECIPES[n]) for n in sorted(SEEDED_RECIPES) if n in live for _ in range(per)]
+    plan += [("PRandomImpulseSequence", r_impulse)] * (per * 2) + [("PArpeggiator", r_arp)] * (per * 2) + [("nested", r_nested)] * (per * 8)
+    cases = []
+    for cls, recipe in plan:
+        spec = recipe(rng)
+        if cls == "nested":
+            setup, ops = entropy_script(rng, list(spec["stoch_names"]), True)
+            wrap = rng.choice(WRAPS[3:]) if rng.random() < 0.3 else None
+            case = {"cls": spec["cls"], "inner": spec["objs"][-1][1], "objs": spec["objs"], "stoch_names": spec["stoch_names"], "wrap": wrap,
+                    "setup": setup, "ops": ops, "stochastic": True, "model": spec.get("model"), "contains": True}
+        else:
+            setup, ops = entropy_script(rng, ["X"], False)
+            if spec.get("config") and rng.random() < 0.5:
+                setup.insert(rng.randint(0, len(setup)), spec["config"](rng))
+            wrap = rng.choice(WRAPS[3:]) if rng.random() < 0.42 else None
+            case = {"cls": cls, "inner": spec["inner"], "objs": None, "wrap": wrap, "setup": setup, "ops": ops, "stochastic": True,
+                    "model": spec.get("model")}
+        if case["model"] and wrap is None and rng.random() < 0.7:
+            # comparable with the model inside Coq: next / reset / seed only (all() = next^m; reset, copies are the oracle's business)
+            case["ops"] = ops = [["reset"] if isinstance(o, list) and o[0] == "all" else o for o in ops if not (isinstance(o, list) and o[0] == "copy")]
+            if case["model"][0] in ("arp", "imp") and not (setup and setup[0][1] == "seed"):
+                case["setup"] = setup = [ent_seedop(rng, "X", False)] + setup
+            if case["model"][0] == "nest":
+                case["setup"] = setup = setup + [ent_seedop(rng, n, True) for n in case["stoch_names"] if not all_seeded(dict(case, stoch_names=[n]), setup)]
+        case["refs"] = []
+        case["global_seed"] = rng.randint(0, 2 ** 31)
+        plain = not any(isinstance(o, list) and o[0] in ("all", "copy") for o in ops)
+        case["record"] = bool(case["model"] and wrap is None and plain and (
+            case["model"][0] in ("arp", "imp") and setup and setup[0][1] == "seed"
+            or case["model"][0] == "nest" and all_seeded(case, setup)))
+        cases.append(case)
+    shards = 12
+    parts = [cases[i::shards] for i in range(shards) if cases[i::shards]]
+    payloads = [{"cases": [{k: c[k] for k in CASE_KEYS + ("global_seed",)} for c in part]} for part in parts]
+    outs = {}
+    for part, res in zip(parts, run.impl_parallel("c04_impl", payloads)):
+        for c, r in zip(part, res["cases"]):
+            outs[id(c)] = r
+    devs, terms, owners, nterms, nowners = [], [], [], [], []
+    for c in cases:
+        out = outs[id(c)]
+        run.count(); run.dist("stream.entropy-seeded"); run.dist("entropy." + c["cls"])
+        run.dist("entropy.nested" if c["wrap"] else "entropy.alone")
+        if c.get("contains"):
+            run.dist("entropy.contains-stochastic")
+        allops = c["setup"] + c["ops"]
+        run.dist("entropy.seed()-calls.%d" % min(4, sum(1 for o in allops if is_entropy_seed(o))))
+        if any(is_entropy_seed(o) for o in c["setup"]):
+            run.dist("entropy.in-set-up")
+        if any(is_entropy_seed(o) for o in c["ops"]):
+            run.dist("entropy.in-mid-history")
+        if any(isinstance(o, list) and o[0] == "copy" for o in c["ops"]):
+            run.dist("entropy.with-copy")
+        if any(isinstance(o, list) and o[0] == "all" for o in c["ops"]):
+            run.dist("entropy.with-all")
+        try:
+            dev = entropy_judge(c, out)
+        except CannotJudge as e:
+            run.discard("entropy: " + str(e)); continue
+        run.cov["oracle_evaluations"] += len(out["events"])
+        runs = entropy_runs(c, out["events"])
+        eras = {}
+        for era, _, obs, _ in runs:
+            eras.setdefault(era, []).append(len(obs))
+        if any(len([n for n in v if n > 0]) >= 2 for v in eras.values()):
+            run.nontrivial("entropy " + c["inner"] + repr(c["setup"]) + repr(c["ops"]) + repr(c["wrap"]))
+            run.dist("entropy.judged-by-two-rewound-runs")
+        if dev is not None:
+            devs.append((bool(c["wrap"]), bool(c.get("contains")), len(c["ops"]) + len(c["inner"]), len(devs), c, out, dev))
+            continue
+        if c["record"] and out.get("epochs") is not None:
+            try:
+                if c["model"][0] == "nest":
+                    nterms.append(nested_term(c, out)); nowners.append((c, out))
+                else:
+                    terms.append(seeded_term(c, out)); owners.append((c, out))
+            except Unrepresentable as e:
+                run.discard("entropy model: " + str(e).split(" ")[0])
+    reported = set()
+    for _, _, _, _, c, out, dev in sorted(devs, key=lambda t: t[:4]):
+        kind = "entropy-seeded-reset" + ("-containing" if c.get("contains") else "")
+        key = json.dumps({"kind": kind, "class": c["cls"]})
+        if key in reported or len(reported) >= 6:
+            continue
+        reported.add(key)
+        run.violation({"kind": kind, "class": c["cls"], "nested": bool(c["wrap"])}, {
+            "case": {"entropy": {k2: c.get(k2) for k2 in DOC_KEYS + ("global_seed",)}},
+            "expected": "era %d (after the %s seed / configuration call), rewound run closed by op %d (%s), output %d: %s  [%s]" % (
+                dev["era"], "%d." % dev["era"] if dev["era"] else "set-up's", dev["op"], dev["how"], dev["index"], dev["expected"], dev["what"]),
+            "observed": dev["observed"], "segment_outputs": dev["segment_outputs"], "reference_outputs": dev["reference_outputs"],
+            "observed_events": [pretty_obs(o) if not (isinstance(o, dict) and "c" in o) else [pretty_obs(x) for x in o["c"]] for o in out["events"]],
+            "python": "import random; random.seed(%d)\n" % c["global_seed"] + seeded_snippet(c)})
+    bad = run.coq_failing(SEEDED_HEADER, terms, chunk=60)
+    run.cov["traces_validated_against_impl"] += len(terms) - len(bad)
+    run.cov["entropy_model_comparisons"] = len(terms) + len(nterms)
+    seen = set()
+    for i in bad:
+        c, out = owners[i]
+        if c["cls"] in seen:
+            continue
+        seen.add(c["cls"])
+        run.violation({"kind": "correspondence", "class": c["cls"], "model": "Pat/Seeded.v", "stream": "entropy"}, {
+            "broken": "correspondence Pat/Seeded.v (%s) vs the implementation on a history with argument-less seed(): with the recorded draws "
+                      "replayed (the epoch a seed() opens standing for the unknown seed) the model gives other outputs or asks the generator for other "
+                      "draws; C04_entropy_reset_is_fresh_instance / C04_entropy_reset_reproduces no longer speak about this code"
+                      % ("arp_random" if c["model"][0] == "arp" else "impulse_seq"),
+            "case": {"entropy": {k2: c.get(k2) for k2 in DOC_KEYS + ("global_seed",)}},
+            "observed": [pretty_obs(o) for o in out["events"]], "epochs": out["epochs"], "coq_term": terms[i],
+            "python": seeded_snippet(c)}, found_input=False)
+    nbad = run.coq_failing(NEST_HEADER, nterms, chunk=60)
+    run.cov["traces_validated_against_impl"] += len(nterms) - len(nbad)
+    for i in nbad[:1]:
+        c, out = nowners[i]
+        run.violation({"kind": "correspondence", "class": c["cls"], "model": "Pat/SeededNest.v", "stream": "entropy"}, {
+            "broken": "correspondence Pat/SeededNest.v vs the implementation on a history with argument-less seed() of parent / child: with the draws "
+                      "recorded per object replayed the model gives other outputs or an object asks its generator for other draws",
+            "case": {"entropy": {k2: c.get(k2) for k2 in DOC_KEYS + ("global_seed",)}},
+            "observed": [pretty_obs(o) for o in out["events"]], "epochs": out["epochs"], "owners": out["owners"], "coq_term": nterms[i],
+            "python": seeded_snippet(c)}, found_input=False)
 
 
 # ==========================================================================================================
@@ -1293,8 +1547,32 @@ META["text"] += (" Patterns and tuples-with-patterns held by a PConstant (Patter
                  "constant-holders stratum (PDict values, operands, PArrayIndex lists, PSequence items, PDictKey, PAbs).")
 
 
+META["text"] += (" Argument-less seed() / seed(None) anywhere in a history (Pat/SeededEntropy.v: the module-level generator the seed is taken from is data, "
+                 "any list of values): the history is the history with seed(s) for the values handed out, so reset() leaves the newly constructed instance with "
+                 "the seed the call stored, and what is drawn after reset(); seed() - or after P(args).seed() - is drawn again after any later reset() "
+                 "(Props/C04Entropy.v: C04_entropy_reset_is_fresh_instance, C04_entropy_reset_reproduces, C04_entropy_new_seeded_reproduces), tied to the repository "
+                 "by the entropy-seeded stratum: every chance class, nests and wrappers, histories over next / reset / all / copy with seed() at rewound and consumed "
+                 "points, judged without knowledge of the seed (all rewound runs of one era are prefixes of one sequence), recorded draws replayed through the model.")
+
+
 def replay(run, doc):
     case = doc.get("case", {})
+    if "entropy" in case:
+        c = dict(case["entropy"], record=False)
+        out = run.impl("c04_impl", {"cases": [{k: c.get(k) for k in CASE_KEYS + ("global_seed",)}]})["cases"][0]
+        print("import random; random.seed(%r)" % c.get("global_seed")); print(seeded_snippet(c))
+        print("observed:  ", out["events"])
+        try:
+            dev = entropy_judge(c, out)
+        except CannotJudge as e:
+            print("replay: cannot judge (%s)" % e)
+            return 2
+        if dev:
+            print("REPLAY-FAILS:", {k: dev[k] for k in ("era", "index", "expected", "observed", "what", "how")})
+            print("VIOLATION property=C04 replay=(replayed)")
+            return 1
+        print("replay: the property holds on this case")
+        return 0
     if "seeded" in case:
         c = dict(case["seeded"], record=False)
         out = run.impl("c04_impl", {"cases": [{k: c.get(k) for k in CASE_KEYS}]})["cases"][0]
